@@ -1,6 +1,7 @@
 (* C13 — per-publisher, per-topic order is preserved to every subscriber. *)
 From Coq Require Import List Arith Bool.
 Import ListNotations.
+From VMQ Require model.Writer proofs.WriterFifo.
 From VMQ Require Import gen.Extracted model.Route proofs.RouteProofs.
 
 (* The number of routing workers is the one found in topics/memlockfree/topics.go NOW. *)
@@ -22,6 +23,21 @@ Theorem C13_complete_at_quiescence :
     forall x, queue_of seqb x (log s') = expected dest seqb x msgs.
 Proof. exact @route_complete_one_worker. Qed.
 Print Assumptions C13_complete_at_quiescence.
+
+(* THE WRITER SIDE: what the routing layer hands to one session (QoS 1/2 messages without expiry, DUP clear)
+   is transmitted for the FIRST time in exactly that order, across every history of writer rounds,
+   acknowledgements, disconnects and reconnects and for every Receive Maximum: at any moment, the first
+   transmissions so far followed by what still waits (in the queue or in persistence) is the sequence that
+   was handed over.  (Retransmissions carry DUP and are not first transmissions; an expired message is dropped
+   without reordering the others; QoS 0 has its own FIFO queue.) *)
+Theorem C13_writer_fifo : forall rm oq es w' outs,
+  WriterFifo.sends_plain es -> Writer.run (Writer.init rm oq) es = (Writer.Fine, w', outs) ->
+  map Writer.ptag (WriterFifo.fresh_out (concat outs)) ++ map Writer.ptag (WriterFifo.waiting w') = WriterFifo.sent_tags es.
+Proof.
+  intros rm oq es w' outs Hs Hr.
+  apply (WriterFifo.writer_fifo es (Writer.init rm oq) w' outs (WriterFifo.init_finv rm oq) Hs Hr).
+Qed.
+Print Assumptions C13_writer_fifo.
 
 (* non-vacuity: a full schedule for 3 messages and 2 subscribers *)
 Example C13_nonvacuous :
